@@ -1,6 +1,7 @@
 //! Correspondence harness: runs the real reval (path dependency on /repo's working tree) and the Lean
 //! model (compiled driver) on the same inputs and reports, per property, violations of the property's own
 //! predicate on the implementation and disagreements with the model.
+mod builder;
 mod cells;
 mod codec;
 mod conv;
@@ -190,6 +191,7 @@ fn main() {
             }
         }
         "C13" => serval::run(&mut rep, &o.driver, o.workers, o.tier == "thorough", o.seed),
+        "C15" => builder::run(&mut rep, &o.driver, o.workers, o.tier == "thorough", o.seed),
         "C17" => conv::run(&mut rep, &o.driver, o.workers, o.tier == "thorough", o.seed),
         "C05" => {
             let mut rng = rng::Rng::new(o.seed);
